@@ -73,6 +73,9 @@ def render_component(c, comps):
     cv = comp_scope(c)
     if cv:
         d["variables"] = cv
+    ov = c.get("ov", 0)
+    if ov > 0:      # the component's override for platform "other" (spec: override scope, highest priority when "other" is loaded)
+        d["override"] = {OTHER_PLATFORM: {"variables": {"rg": ov, "rs": ov, "rc": ov, "ag": _ag(ov)}}}
     return d
 
 
@@ -101,8 +104,9 @@ def render_flowir(case):
         plat = OTHER_PLATFORM if sv[2] == 1 else "default"
         for d in out:
             if d.get("references"):
-                d["override"] = {plat: {"references": list(d["references"]), "command": {"arguments": d["command"]["arguments"]}}}
-    if other or sv[2] == 1:
+                d.setdefault("override", {}).setdefault(plat, {}).update(
+                    {"references": list(d["references"]), "command": {"arguments": d["command"]["arguments"]}})
+    if other or sv[2] == 1 or any(c.get("ov", 0) > 0 for c in comps):
         doc["platforms"] = ["default", OTHER_PLATFORM]
         if other:
             variables[OTHER_PLATFORM] = other
@@ -370,7 +374,7 @@ def _accept_checks(graph, conf_for_node, ncomponents):
     return bad
 
 
-def v_run(flowir, path, scratch, timeout=30):
+def v_run(flowir, path, scratch, timeout=30, platform=None):
     """-> {"accepted": bool, "problems": [...]} | {"error":..., "mro": [...]} | {"hang": True}"""
     import signal
 
@@ -381,7 +385,7 @@ def v_run(flowir, path, scratch, timeout=30):
     try:
         if path in ("graph", "primitive"):
             import experiment.model.graph as G
-            wg = G.WorkflowGraph.graphFromFlowIR(copy.deepcopy(flowir), {}, primitive=(path == "primitive"))
+            wg = G.WorkflowGraph.graphFromFlowIR(copy.deepcopy(flowir), {}, platform=platform, primitive=(path == "primitive"))
             ncomp = len(wg.configuration.get_flowir_concrete(return_copy=False).get_components())
             problems = _accept_checks(wg.graph, lambda n: wg.configurationForNode(n, raw=False), ncomp)
         else:
@@ -414,4 +418,11 @@ def v_exec_case(args):
         flowir = v_render_flowir(case)
     except Exception as e:
         return {"render_error": repr(e)}
-    return {p: v_run(flowir, p, scratch) for p in paths}
+    platform = None
+    if case.get("appdep"):
+        # The package declares an application dependency named like the first component for the DEFAULT platform and an explicitly
+        # EMPTY list for platform "other", for which the workflow is loaded: there the name is a component, nothing else
+        flowir["platforms"] = ["default", OTHER_PLATFORM]
+        flowir["application-dependencies"] = {"default": ["%s.application" % case["appdep"]], OTHER_PLATFORM: []}
+        platform = OTHER_PLATFORM
+    return {p: v_run(flowir, p, scratch, platform=platform) for p in paths}
